@@ -82,8 +82,11 @@ public:
     assert(SH().OnAMPLOptions);
 
     AMPLOptions_C ao_c;
-    ao_c.n_options_ = (int)ao.options_.size();
-    std::copy(ao.options_.begin(), ao.options_.end(),
+    const std::size_t cap      // never write past the C array
+        = sizeof(ao_c.options_) / sizeof(ao_c.options_[0]);
+    const std::size_t n = std::min(ao.options_.size(), cap);
+    ao_c.n_options_ = (int)n;
+    std::copy(ao.options_.begin(), ao.options_.begin() + n,
               ao_c.options_);
     ao_c.has_vbtol_ = ao.has_vbtol_;
     ao_c.vbtol_ = ao.vbtol_;
